@@ -107,4 +107,308 @@ theorem numBlocks_eq (T : CTy) (hf : Fits T) (n bs : Int) (hn : T.inRange n) (hb
     rw [conv_id T hbT _ ⟨by omega, by omega⟩]
 
 
+theorem nb_lt_facts (n bs k : Int) (hn : 0 < n) (hbs : 0 < bs) (hk0 : 0 ≤ k) (hk : k < nbIdeal n bs) :
+    0 ≤ k * bs ∧ k * bs < n ∧ k < n ∧
+    (k + 1 < nbIdeal n bs → n - k * bs > bs) ∧ (k + 1 = nbIdeal n bs → n - k * bs ≤ bs) := by
+  obtain ⟨f1, f2, f3, f4, f5, f6⟩ := divmod_facts n bs hn hbs
+  have hP : 0 ≤ k * bs := Int.mul_nonneg hk0 (by omega)
+  have hQ : bs * (n / bs) = (n / bs) * bs := Int.mul_comm _ _
+  have hnb : nbIdeal n bs = n / bs + (if n % bs ≠ 0 then 1 else 0) := by
+    unfold nbIdeal; rw [if_pos hn]
+  rw [hnb] at hk ⊢
+  by_cases hr : n % bs ≠ 0
+  · rw [if_pos hr] at hk ⊢
+    by_cases hkq : k + 1 ≤ n / bs
+    · have := mul_step k (n / bs) bs hbs hkq
+      refine ⟨hP, by omega, by omega, fun _ => by omega, fun _ => by omega⟩
+    · have hkq' : k = n / bs := by omega
+      subst hkq'
+      refine ⟨hP, by omega, by omega, fun _ => by omega, fun _ => by omega⟩
+  · rw [if_neg hr] at hk ⊢
+    have hkq : k + 1 ≤ n / bs := by omega
+    have h1 := mul_step k (n / bs) bs hbs hkq
+    refine ⟨hP, by omega, by omega, ?_, ?_⟩
+    · intro h2
+      have := mul_step (k + 1) (n / bs) bs hbs (by omega)
+      have e1 : (k + 1) * bs = k * bs + bs := by rw [Int.add_mul]; omega
+      omega
+    · intro h2
+      have h3 : n / bs = k + 1 := by omega
+      have e1 : (k + 1) * bs = k * bs + bs := by rw [Int.add_mul]; omega
+      rw [h3] at hQ f1
+      omega
+
+theorem blockBegin_eq (T : CTy) (hf : Fits T) (n bs k : Int) (hn : T.inRange n) (hbs : 0 < bs)
+    (hbs2 : bs ≤ 2 ^ 31 - 1) (hpos : 0 < n) (hk0 : 0 ≤ k) (hk : k < nbIdeal n bs) :
+    blockBegin T bs k = some (k * bs) := by
+  obtain ⟨hbT, hbA, loT, loA, hiTA, hiA, hiT⟩ := hf
+  obtain ⟨g1, g2, g3, _, _⟩ := nb_lt_facts n bs k hpos hbs hk0 hk
+  have hn2 := hn.2
+  unfold blockBegin
+  have ck : T.arith.conv k = k := conv_id _ hbA _ ⟨by omega, by omega⟩
+  have cb : T.arith.conv bs = bs := conv_id _ hbA _ ⟨by omega, by omega⟩
+  have hm : cmul T.arith k bs = some (k * bs) := cres_ok _ hbA _ ⟨by omega, by omega⟩
+  simp only [ck, cb, hm]
+  rw [conv_id T hbT _ ⟨by omega, by omega⟩]
+
+theorem blockEnd_eq (T : CTy) (hf : Fits T) (n bs k : Int) (hn : T.inRange n) (hbs : 0 < bs)
+    (hbs2 : bs ≤ 2 ^ 31 - 1) (hpos : 0 < n) (hk0 : 0 ≤ k) (hk : k < nbIdeal n bs) :
+    blockEnd T n bs (k * bs) = some (if n - k * bs > bs then k * bs + bs else n) := by
+  obtain ⟨hbT, hbA, loT, loA, hiTA, hiA, hiT⟩ := hf
+  obtain ⟨g1, g2, g3, _, _⟩ := nb_lt_facts n bs k hpos hbs hk0 hk
+  have hn2 := hn.2
+  unfold blockEnd
+  have cn : T.arith.conv n = n := conv_id _ hbA _ ⟨by omega, by omega⟩
+  have cp : T.arith.conv (k * bs) = k * bs := conv_id _ hbA _ ⟨by omega, by omega⟩
+  have cb : T.arith.conv bs = bs := conv_id _ hbA _ ⟨by omega, by omega⟩
+  have hs : csub T.arith n (k * bs) = some (n - k * bs) := cres_ok _ hbA _ ⟨by omega, by omega⟩
+  simp only [cn, cp, cb, hs]
+  by_cases hd : n - k * bs > bs
+  · have ha : cadd T.arith (k * bs) bs = some (k * bs + bs) := cres_ok _ hbA _ ⟨by omega, by omega⟩
+    rw [if_pos hd, if_pos hd, ha]
+    simp only
+    rw [conv_id T hbT _ ⟨by omega, by omega⟩]
+  · rw [if_neg hd, if_neg hd]
+
+theorem blocksFrom_chain (T : CTy) (hf : Fits T) (n bs : Int) (hn : T.inRange n) (hbs : 0 < bs)
+    (hbs2 : bs ≤ 2 ^ 31 - 1) (hpos : 0 < n) :
+    ∀ (fuel : Nat) (k : Int), 0 ≤ k → 0 < fuel → k + fuel = nbIdeal n bs →
+      ∃ L, blocksFrom T n bs fuel k = some L ∧ chainFrom bs n (k * bs) L ∧ L.length = fuel := by
+  intro fuel
+  induction fuel with
+  | zero => intro k _ h; omega
+  | succ f ih =>
+    intro k hk0 _ hsum
+    have hk : k < nbIdeal n bs := by omega
+    obtain ⟨g1, g2, g3, g4, g5⟩ := nb_lt_facts n bs k hpos hbs hk0 hk
+    have hb := blockBegin_eq T hf n bs k hn hbs hbs2 hpos hk0 hk
+    have he := blockEnd_eq T hf n bs k hn hbs hbs2 hpos hk0 hk
+    simp only [blocksFrom, hb, he]
+    by_cases hf0 : f = 0
+    · subst hf0
+      have hlast : k + 1 = nbIdeal n bs := by omega
+      have := g5 hlast
+      rw [if_neg (by omega)]
+      refine ⟨[(k * bs, n)], by simp [blocksFrom], ?_, rfl⟩
+      simp only [chainFrom, true_and, and_true]
+      exact ⟨by omega, by omega⟩
+    · have hmore : k + 1 < nbIdeal n bs := by omega
+      have := g4 hmore
+      obtain ⟨L, hL, hc, hlen⟩ := ih (k + 1) (by omega) (by omega) (by omega)
+      rw [if_pos (by omega), hL]
+      refine ⟨(k * bs, k * bs + bs) :: L, rfl, ?_, by simp [hlen]⟩
+      simp only [chainFrom, true_and]
+      rw [Int.add_mul, Int.one_mul] at hc
+      exact ⟨by omega, by omega, hc⟩
+
+theorem blocks_chain (T : CTy) (hf : Fits T) (n bs : Int) (hn : T.inRange n) (hbs : 0 < bs)
+    (hbs2 : bs ≤ 2 ^ 31 - 1) :
+    ∃ L, blocks T n bs = some L ∧ (n ≤ 0 → L = []) ∧ (0 < n → chainFrom bs n 0 L) := by
+  unfold blocks
+  rw [numBlocks_eq T hf n bs hn hbs hbs2]
+  by_cases hpos : 0 < n
+  · have hnb : 0 < nbIdeal n bs := by
+      obtain ⟨f1, f2, f3, f4, f5, f6⟩ := divmod_facts n bs hpos hbs
+      unfold nbIdeal
+      rw [if_pos hpos]
+      by_cases hr : n % bs ≠ 0
+      · rw [if_pos hr]; omega
+      · rw [if_neg hr]
+        have : n / bs ≠ 0 := by
+          intro h0
+          rw [h0] at f1
+          omega
+        omega
+    obtain ⟨L, hL, hc, _⟩ := blocksFrom_chain T hf n bs hn hbs hbs2 hpos (nbIdeal n bs).toNat 0
+      (by omega) (by omega) (by omega)
+    refine ⟨L, hL, fun h => by omega, fun _ => ?_⟩
+    simpa using hc
+  · have : nbIdeal n bs = 0 := by unfold nbIdeal; simp [hpos]
+    rw [this]
+    exact ⟨[], by simp [blocksFrom], fun _ => rfl, fun h => by omega⟩
+
+/-- a chain of blocks covers every index of `[a, n)` exactly once and nothing else -/
+theorem chain_cover (bs n : Int) : ∀ (L : List (Int × Int)) (a : Int), chainFrom bs n a L →
+    a ≤ n ∧ ∀ i : Int, (L.filter fun be => decide (be.1 ≤ i ∧ i < be.2)).length = if a ≤ i ∧ i < n then 1 else 0
+  | [], a, h => by
+    simp only [chainFrom] at h
+    subst h
+    refine ⟨Int.le_refl _, fun i => ?_⟩
+    have : ¬ (a ≤ i ∧ i < a) := by omega
+    rw [if_neg this]
+    rfl
+  | (b, e) :: rest, a, h => by
+    simp only [chainFrom] at h
+    obtain ⟨rfl, h1, h2, h3⟩ := h
+    obtain ⟨ih1, ih2⟩ := chain_cover bs n rest e h3
+    refine ⟨by omega, fun i => ?_⟩
+    have := ih2 i
+    simp only [List.filter_cons]
+    by_cases hi : b ≤ i ∧ i < e
+    · have hd : decide (b ≤ i ∧ i < e) = true := decide_eq_true hi
+      simp only [hd, ↓reduceIte, List.length_cons]
+      rw [this]
+      have h5 : ¬ (e ≤ i ∧ i < n) := by omega
+      have h6 : b ≤ i ∧ i < n := by omega
+      rw [if_neg h5, if_pos h6]
+    · have hd : decide (b ≤ i ∧ i < e) = false := decide_eq_false hi
+      simp only [hd, Bool.false_eq_true, ↓reduceIte]
+      rw [this]
+      by_cases h4 : e ≤ i ∧ i < n
+      · have h6 : b ≤ i ∧ i < n := by omega
+        rw [if_pos h4, if_pos h6]
+      · have h6 : ¬ (b ≤ i ∧ i < n) := by omega
+        rw [if_neg h4, if_neg h6]
+
+
+theorem cinc_ok (T : CTy) (hbT : 1 ≤ T.bits) (loT : T.lo ≤ 0) (i : Int) (h0 : 0 ≤ i) (h1 : i + 1 ≤ T.hi) :
+    cinc T i = some (i + 1) := by
+  unfold cinc
+  have hr : T.inRange (i + 1) := ⟨by omega, h1⟩
+  split
+  · rw [conv_id T hbT _ hr]
+  · exact cres_ok T hbT _ hr
+
+theorem serialFrom_eq (T : CTy) (hbT : 1 ≤ T.bits) (loT : T.lo ≤ 0) (n : Int) (hn : n ≤ T.hi) :
+    ∀ (fuel : Nat) (i : Int), 0 ≤ i → (n - i).toNat < fuel →
+      serialFrom T n fuel i = some (intsFrom i (n - i).toNat) := by
+  intro fuel
+  induction fuel with
+  | zero => intro i _ h; omega
+  | succ f ih =>
+    intro i hi hf
+    unfold serialFrom
+    by_cases hlt : i < n
+    · rw [if_pos hlt, cinc_ok T hbT loT i hi (by omega)]
+      simp only
+      rw [ih (i + 1) (by omega) (by omega)]
+      have : (n - i).toNat = (n - (i + 1)).toNat + 1 := by omega
+      rw [this]
+      rfl
+    · rw [if_neg hlt]
+      have : (n - i).toNat = 0 := by omega
+      rw [this]
+      rfl
+
+theorem mem_intsFrom : ∀ (len : Nat) (a x : Int), x ∈ intsFrom a len ↔ a ≤ x ∧ x < a + len
+  | 0, a, x => by simp [intsFrom]
+  | len + 1, a, x => by
+    simp only [intsFrom, List.mem_cons, mem_intsFrom len (a + 1) x]
+    omega
+
+theorem nodup_intsFrom : ∀ (len : Nat) (a : Int), (intsFrom a len).Nodup
+  | 0, a => by simp [intsFrom]
+  | len + 1, a => by
+    simp only [intsFrom, List.nodup_cons, mem_intsFrom]
+    exact ⟨by omega, nodup_intsFrom len (a + 1)⟩
+
+theorem intsFrom_append : ∀ (l1 l2 : Nat) (a : Int), intsFrom a l1 ++ intsFrom (a + l1) l2 = intsFrom a (l1 + l2)
+  | 0, l2, a => by simp [intsFrom]
+  | l1 + 1, l2, a => by
+    have := intsFrom_append l1 l2 (a + 1)
+    have e : l1 + 1 + l2 = (l1 + l2) + 1 := by omega
+    rw [e]
+    simp only [intsFrom, List.cons_append]
+    rw [← this]
+    congr 3
+    omega
+
+theorem map_add_intsFrom : ∀ (len : Nat) (a c : Int), (intsFrom a len).map (c + ·) = intsFrom (c + a) len
+  | 0, a, c => rfl
+  | len + 1, a, c => by
+    simp only [intsFrom, List.map_cons, map_add_intsFrom len (a + 1) c]
+    congr 2
+    omega
+
+/-- the ideal set list: (first, size) with size = min(left, maxChunk) -/
+theorem internalSetsFrom_ok (T : CTy) (hbT : 1 ≤ T.bits) (total : Int) (htot : total ≤ T.hi) (hu : T.hi ≤ u64.hi) (loT : T.lo ≤ 0) :
+    ∀ (fuel : Nat) (first : Int), 0 ≤ first → first ≤ total → (total - first).toNat < fuel →
+      ∃ L, internalSetsFrom total fuel first = some L ∧
+        (∀ fs ∈ L, 0 < fs.2 ∧ fs.2 ≤ maxChunk) ∧
+        (L.flatMap fun fs => (intsFrom 0 fs.2.toNat).map (internalIndex T fs.1)) = intsFrom first (total - first).toNat := by
+  have hu64 : u64.hi = 2 ^ 64 - 1 := by decide
+  have hu64lo : u64.lo = 0 := by decide
+  intro fuel
+  induction fuel with
+  | zero => intro first _ _ h; omega
+  | succ f ih =>
+    intro first h0 hle hf
+    unfold internalSetsFrom
+    by_cases hlt : first < total
+    · rw [if_pos hlt]
+      have hs : csub u64 total first = some (total - first) :=
+        cres_ok u64 (by decide) _ ⟨by omega, by omega⟩
+      rw [hs]
+      simp only
+      generalize hc : (if total - first < maxChunk then total - first else maxChunk) = chunk
+      have hc1 : 0 < chunk := by
+        rw [← hc]; unfold maxChunk; split <;> omega
+      have hc2 : chunk ≤ maxChunk := by
+        rw [← hc]; unfold maxChunk; split <;> omega
+      have hc3 : chunk ≤ total - first := by
+        rw [← hc]; unfold maxChunk at *; split <;> omega
+      have hmc : maxChunk = 2147483647 := rfl
+      have ci : i32.conv chunk = chunk := conv_id i32 (by decide) _ ⟨by
+        have : i32.lo = -2147483648 := by decide
+        omega, by
+        have : i32.hi = 2147483647 := by decide
+        omega⟩
+      have cu : u64.conv chunk = chunk := conv_id u64 (by decide) _ ⟨by omega, by omega⟩
+      have c32 : u32.conv chunk = chunk := conv_id u32 (by decide) _ ⟨by
+        have : u32.lo = 0 := by decide
+        omega, by
+        have : u32.hi = 4294967295 := by decide
+        omega⟩
+      rw [ci, cu, c32]
+      have ha : cadd u64 first chunk = some (first + chunk) :=
+        cres_ok u64 (by decide) _ ⟨by omega, by omega⟩
+      rw [ha]
+      simp only
+      obtain ⟨L, hL, hsz, hflat⟩ := ih (first + chunk) (by omega) (by omega) (by omega)
+      rw [hL]
+      refine ⟨(first, chunk) :: L, rfl, ?_, ?_⟩
+      · intro fs hfs
+        rcases List.mem_cons.mp hfs with rfl | hfs
+        · exact ⟨hc1, hc2⟩
+        · exact hsz fs hfs
+      · simp only [List.flatMap_cons]
+        rw [hflat]
+        have hmap : (intsFrom 0 chunk.toNat).map (internalIndex T first) = intsFrom first chunk.toNat := by
+          have : (intsFrom 0 chunk.toNat).map (internalIndex T first) = (intsFrom 0 chunk.toNat).map (first + ·) := by
+            apply List.map_congr_left
+            intro x hx
+            rw [mem_intsFrom] at hx
+            unfold internalIndex
+            have c1 : u32.conv x = x := conv_id u32 (by decide) _ ⟨by
+              have : u32.lo = 0 := by decide
+              omega, by
+              have : u32.hi = 4294967295 := by decide
+              omega⟩
+            rw [c1, conv_id u64 (by decide) _ ⟨by omega, by omega⟩, conv_id T hbT _ ⟨by omega, by omega⟩]
+          rw [this, map_add_intsFrom]
+          simp
+        rw [hmap]
+        have e1 : (first + chunk) = first + (chunk.toNat : Int) := by omega
+        have e2 : (total - first).toNat = chunk.toNat + (total - (first + chunk)).toNat := by omega
+        rw [e2, e1]
+        have := intsFrom_append chunk.toNat (total - (first + ↑chunk.toNat)).toNat first
+        exact this
+    · rw [if_neg hlt]
+      have : (total - first).toNat = 0 := by omega
+      rw [this]
+      exact ⟨[], rfl, by simp, rfl⟩
+
+theorem iterAt_eq (sz : Nat) : ∀ (chunks : List Chunk) (i : Nat), iterAt sz chunks i = (rangeAddrs sz chunks)[i]?
+  | [], i => by simp [iterAt, rangeAddrs]
+  | c :: cs, i => by
+    have ih := iterAt_eq sz cs (i - c.len)
+    simp only [iterAt, rangeAddrs, List.flatMap_cons] at ih ⊢
+    have hlen : (elemAddrs sz c).length = c.len := by simp [elemAddrs]
+    by_cases hi : i < c.len
+    · rw [if_pos hi, List.getElem?_append_left (by omega)]
+      simp [elemAddrs, hi]
+    · rw [if_neg hi, List.getElem?_append_right (by omega), hlen]
+      exact ih
+
+
 end RkVerif.C01
